@@ -190,6 +190,8 @@ static void binary(Ctx &c, const std::string &x, const std::string &y) {
 		expect_str(c, em, y, "+= view on a default-constructed string");
 		Str em2(f.al); Str es = em2 + vy;
 		expect_str(c, es, y, "default-constructed + view");
+		// assignment from a C-string pointer into the string's own buffer ("let a C API fill the buffer, then cut at the NUL")
+		for(size_t k = 0; k <= x.size() && !c.bad; k++) { Str t(sx); const char *inner = t.data() + k; std::string want = x.substr(k); want = want.substr(0, want.find('\0')); t = inner; expect_str(c, t, want, "s = s.data() + k"); }
 		Str selfcat(sx); selfcat += View(selfcat);
 		expect_str(c, selfcat, x + x, "s += view(s)");
 		// compare / ==
